@@ -9,6 +9,7 @@ import DimodProofs.NoUBExpr
 import DimodModel.CppCover
 import DimodProofs.NoUBCqm
 import DimodProofs.CyCqmVars
+import DimodProofs.CqmChangeVartype
 
 /-! # C20 — no call sequence corrupts the native data structures
 
@@ -288,6 +289,27 @@ example :
     (({ labels := [.str "x"], info := [(.binary, 0, 1)] } : CyCqm.Vars).addVariablesBatched .spin (-1) 1 true true
         [some (.str "s"), some (.str "t"), some (.str "x"), some (.str "u")]).1
       = { labels := [.str "x", .str "s", .str "t"], info := [(.binary, 0, 1)] } := by
+  decide +kernel
+
+/-! ## round 8: `ConstrainedQuadraticModel::change_vartype` -/
+
+/-- **`ConstrainedQuadraticModel::change_vartype(target, v)`** as coded (`Cqm.changeVartypeC`, DimodModel/CqmChangeVartype.lean:
+    the branch on the vartype `v` has, `substitute_variable(v, mult, c)` on the objective and on every constraint, the three
+    `varinfo_[v]` writes; SPIN → INTEGER through BINARY; any other pair throws `std::logic_error` before anything is changed):
+    on a well-formed model with `v < num_variables()` - the documented precondition - the call with every vector access checked
+    never fails, equals the unchecked call, and leaves the model well-formed, for every target vartype (the unsupported ones
+    included).  With `cqm_no_ub` this covers the CQM-level mutators of the header except the copying `fix_variables`, the
+    constraint-building overloads with a mapping and `remove_constraints_if` (interpreter + Python sequences only). -/
+theorem cqm_change_vartype_no_ub (m : Cqm) (w : CqmP.CqmCWF m) (t : VT4) (v : Nat) (hv : v < m.vt.length) :
+    m.changeVartypeC? t v = some (m.changeVartypeC t v) ∧ CqmP.CqmCWF (m.changeVartypeC t v).1 :=
+  CqmP.changeVartypeC?_eq w t v hv
+
+/-- non-vacuity: SPIN → INTEGER on a variable that the objective uses with a self-product-free interaction runs the five calls
+    (and is checked: an index outside the model is a failing access) -/
+example : ((({ vt := [.spin, .binary], lb := [-1, 0], ub := [1, 1] } : Cqm).cstep (.objOp (.addQuadratic 0 1 1))).changeVartypeC? .integer 0).isSome = true ∧
+    (({ vt := [.spin, .binary], lb := [-1, 0], ub := [1, 1] } : Cqm).changeVartypeC .integer 0).1.vt = [.integer, .binary] ∧
+    (({ vt := [.spin], lb := [-1], ub := [1] } : Cqm).changeVartypeC? .binary 3) = none ∧
+    (({ vt := [.integer], lb := [0], ub := [5] } : Cqm).changeVartypeC .spin 0).2 = true := by
   decide +kernel
 
 end C20
